@@ -39,6 +39,16 @@ func ProfileFor(prop, tier string, seed uint64) *Profile {
 		case v == 2: // delete heavy
 			pf.WDelete, pf.WInsert = 30, 40
 		}
+		if v == 5 { // deep: one table grown past the first internal-node split (1165 rows) in few, wide statements
+			pf.Stmts = [2]int{85, 130}
+			pf.Tables = [2]int{1, 1}
+			pf.WInsert, pf.WDelete, pf.WUpdate, pf.WCreate, pf.WSelect, pf.WFail, pf.WRestart = 100, 2, 1, 0, 1, 0, 1
+			pf.MaxRows = 16
+			pf.WideInserts = true
+			pf.CheckEvery = 25
+			pf.BigInsertOnly = true
+			pf.StallP = 0.01
+		}
 		if thorough && v == 3 {
 			pf.Stmts = [2]int{400, 800}
 			pf.Tables = [2]int{1, 2}
@@ -115,6 +125,17 @@ func ProfileFor(prop, tier string, seed uint64) *Profile {
 		case 2:
 			pf.Tables = [2]int{6, 12}
 			pf.WCreate = 12
+		case 5: // deep: height-3 tree within the quick budget
+			pf.Stmts = [2]int{85, 130}
+			pf.Tables = [2]int{1, 1}
+			pf.WInsert, pf.WDelete, pf.WUpdate, pf.WCreate, pf.WSelect, pf.WFail, pf.WRestart = 100, 2, 1, 0, 1, 0, 1
+			pf.MaxRows = 16
+			pf.WideInserts = true
+			pf.TreeEvery = 10
+			pf.CheckEvery = 30
+			pf.BigInsertOnly = true
+			pf.Boundary = 1
+			pf.StallP = 0.01
 		}
 		if thorough && (v == 3 || v == 4) {
 			pf.Stmts = [2]int{500, 900}
@@ -132,6 +153,15 @@ func ProfileFor(prop, tier string, seed uint64) *Profile {
 		pf.WRestart = 4
 		pf.Stmts = [2]int{30, 90}
 		pf.MaxRows = 12
+		if v == 5 { // deep: internal nodes with hundreds of cells
+			pf.Stmts = [2]int{85, 130}
+			pf.Tables = [2]int{1, 1}
+			pf.WInsert, pf.WDelete, pf.WUpdate, pf.WCreate, pf.WSelect, pf.WFail, pf.WRestart = 100, 2, 1, 0, 1, 0, 1
+			pf.MaxRows = 16
+			pf.WideInserts = true
+			pf.CheckEvery = 30
+			pf.BigInsertOnly = true
+		}
 		if thorough && v < 2 {
 			pf.Stmts = [2]int{500, 900}
 			pf.Tables = [2]int{1, 1}
